@@ -8,19 +8,23 @@ import Crusta.Proofs.Maximal
 namespace Crusta
 open Prog (mkSolver doReserve addClause addClauses getNVars doSolve)
 
-theorem MInv.congr_db {m : MEC} {w w' : World} {blocked : List (List Nat)} (h : MInv m w blocked)
-    (hdb : w'.db m.sid = w.db m.sid) : MInv m w' blocked :=
+theorem MInvF.congr_db {F : AF → ASet → Prop} {m : MEC} {w w' : World} {blocked : List (List Nat)}
+    (h : MInvF F m w blocked) (hdb : w'.db m.sid = w.db m.sid) : MInvF F m w' blocked :=
   { h with db_sound := by rw [hdb]; exact h.db_sound
            db_enc := by rw [hdb]; exact h.db_enc
            db_blk := by rw [hdb]; exact h.db_blk }
 
+theorem MInv.congr_db {m : MEC} {w w' : World} {blocked : List (List Nat)} (h : MInv m w blocked)
+    (hdb : w'.db m.sid = w.db m.sid) : MInv m w' blocked := MInvF.congr_db h hdb
+
 /-- changing only the search state of the computer keeps the solver invariant -/
-theorem MInv.congr_m {m m' : MEC} {w : World} {blocked : List (List Nat)} (h : MInv m w blocked)
+theorem MInvF.congr_m {F : AF → ASet → Prop} {m m' : MEC} {w : World} {blocked : List (List Nat)}
+    (h : MInvF F m w blocked)
     (haf : m'.af = m.af) (henc : m'.enc = m.enc) (hsid : m'.sid = m.sid) (hsel : m'.sel = m.sel)
-    (hadd : m'.additional = m.additional) : MInv m' w blocked := by
+    (hadd : m'.additional = m.additional) : MInvF F m' w blocked := by
   constructor
   · rw [haf]; exact h.wf
-  · rw [haf, henc]; exact h.isCO
+  · rw [haf, henc]; exact h.isF
   · rw [haf, henc, hsid, hsel]; exact h.db_sound
   · rw [haf, henc, hsid]; exact h.db_enc
   · rw [haf, henc, hsid, hsel]; exact h.db_blk
@@ -28,9 +32,14 @@ theorem MInv.congr_m {m m' : MEC} {w : World} {blocked : List (List Nat)} (h : M
   · rw [haf, henc, hsel]; exact h.fresh_arg
   · rw [hadd]; exact h.no_add
 
+theorem MInv.congr_m {m m' : MEC} {w : World} {blocked : List (List Nat)} (h : MInv m w blocked)
+    (haf : m'.af = m.af) (henc : m'.enc = m.enc) (hsid : m'.sid = m.sid) (hsel : m'.sel = m.sel)
+    (hadd : m'.additional = m.additional) : MInv m' w blocked := MInvF.congr_m h haf henc hsid hsel hadd
+
 /-- adding the blocking clause of a set -/
-theorem MInv.block {m : MEC} {w : World} {blocked : List (List Nat)} (h : MInv m w blocked) (E : List Nat) :
-    MInv m (w.onClause m.sid (outL m.enc m.af.n E ++ [pl m.sel])) (E :: blocked) := by
+theorem MInvF.block {F : AF → ASet → Prop} {m : MEC} {w : World} {blocked : List (List Nat)}
+    (h : MInvF F m w blocked) (E : List Nat) :
+    MInvF F m (w.onClause m.sid (outL m.enc m.af.n E ++ [pl m.sel])) (E :: blocked) := by
   refine { h with db_sound := ?_, db_enc := ?_, db_blk := ?_ }
   · intro c hc
     rw [db_onClause_same] at hc
@@ -46,9 +55,13 @@ theorem MInv.block {m : MEC} {w : World} {blocked : List (List Nat)} (h : MInv m
     · exact List.mem_cons_self
     · exact List.mem_cons_of_mem _ (h.db_blk E' hE')
 
-theorem wp_MEC_new {C : Prop} {enc : EncKind} {af : AF} {sid : Nat} {w : World} (henc : Encoded enc af sid false w)
-    (hwf : af.WF) (hco : ∀ T, enc.Base af T ↔ Complete af T) (kind : MKind) :
-    wp C (MEC.new af enc sid kind) w (fun m w' => MInv m w' [] ∧ m.af = af ∧ m.enc = enc ∧ m.sid = sid ∧
+theorem MInv.block {m : MEC} {w : World} {blocked : List (List Nat)} (h : MInv m w blocked) (E : List Nat) :
+    MInv m (w.onClause m.sid (outL m.enc m.af.n E ++ [pl m.sel])) (E :: blocked) := MInvF.block h E
+
+theorem wp_MEC_newF {F : AF → ASet → Prop} {C : Prop} {enc : EncKind} {af : AF} {sid : Nat} {w : World}
+    (henc : Encoded enc af sid false w)
+    (hwf : af.WF) (hco : ∀ T, enc.Base af T ↔ F af T) (kind : MKind) :
+    wp C (MEC.new af enc sid kind) w (fun m w' => MInvF F m w' [] ∧ m.af = af ∧ m.enc = enc ∧ m.sid = sid ∧
       m.kind = kind ∧ m.state = .init ∧ w'.Bounded ∧ w'.db sid = w.db sid) := by
   unfold MEC.new
   simp only [Prog.bind_eq]
@@ -68,7 +81,44 @@ theorem wp_MEC_new {C : Prop} {enc : EncKind} {af : AF} {sid : Nat} {w : World} 
     show enc.argVar a ≠ w.nVarsOf sid + 1
     omega
 
+theorem wp_MEC_new {C : Prop} {enc : EncKind} {af : AF} {sid : Nat} {w : World} (henc : Encoded enc af sid false w)
+    (hwf : af.WF) (hco : ∀ T, enc.Base af T ↔ Complete af T) (kind : MKind) :
+    wp C (MEC.new af enc sid kind) w (fun m w' => MInv m w' [] ∧ m.af = af ∧ m.enc = enc ∧ m.sid = sid ∧
+      m.kind = kind ∧ m.state = .init ∧ w'.Bounded ∧ w'.db sid = w.db sid) :=
+  wp_MEC_newF henc hwf hco kind
+
 /-- a SAT call of the computer under `must ∧ ¬selector` (plus extra assumptions) -/
+theorem wp_MEC_solveF {F : AF → ASet → Prop} {C : Prop} {m : MEC} {w : World} {blocked : List (List Nat)}
+    (h : MInvF F m w blocked)
+    (must : List Nat) (extra : List Lit) (Q : Option (Model × List Nat) → World → Prop)
+    (hsat : ∀ mdl w', MInvF F m w' blocked → w'.db m.sid = w.db m.sid →
+      F m.af (ofList (m.enc.decode m.af.n mdl)) →
+      (∀ a ∈ must, a < m.af.n → a ∈ m.enc.decode m.af.n mdl) →
+      (∀ E ∈ blocked, ¬ SubL (ofList (m.enc.decode m.af.n mdl)) E) →
+      assumpsTrue (asgOfModel mdl) extra = true →
+      Q (some (mdl, m.enc.decode m.af.n mdl)) w')
+    (hunsat : ∀ w', MInvF F m w' blocked → w'.db m.sid = w.db m.sid →
+      (∀ T, F m.af T → (∀ a ∈ must, a < m.af.n → T a = true) →
+        (∀ ν, m.enc.S m.af ν = T → ν m.sel = false → assumpsTrue ν extra = true) → ∃ E ∈ blocked, SubL T E) →
+      Q none w') :
+    wp C (m.solve (inL m.enc m.af.n must ++ [nl m.sel] ++ extra)) w Q := by
+  unfold MEC.solve
+  simp only [Prog.bind_eq, h.no_add, List.append_nil]
+  rw [wp_bind]
+  have hdb : ∀ r, ((w.onSolve m.sid (inL m.enc m.af.n must ++ [nl m.sel] ++ extra)).onReply m.sid r).db m.sid = w.db m.sid := by
+    intro r; simp
+  constructor
+  · rintro mdl ⟨_, hΓ, hA⟩
+    obtain ⟨h1, h2, h3, h4⟩ := solve_satF h must extra hΓ hA
+    have hS := m.enc.ofList_decode m.af mdl
+    refine hsat mdl _ (h.congr_db (hdb _)) (hdb _) (by rw [hS]; exact h1) ?_ (by rw [hS]; exact h3) h4
+    intro a ha hn
+    exact (m.enc.decode_spec m.af mdl a).2 (h2 a ha hn)
+  · intro hun
+    refine hunsat _ (h.congr_db (hdb _)) (hdb _) ?_
+    intro T hT hmust hextra
+    exact solve_unsatF h must extra hun hT hmust hextra
+
 theorem wp_MEC_solve {C : Prop} {m : MEC} {w : World} {blocked : List (List Nat)} (h : MInv m w blocked)
     (must : List Nat) (extra : List Lit) (Q : Option (Model × List Nat) → World → Prop)
     (hsat : ∀ mdl w', MInv m w' blocked → w'.db m.sid = w.db m.sid →
@@ -81,23 +131,8 @@ theorem wp_MEC_solve {C : Prop} {m : MEC} {w : World} {blocked : List (List Nat)
       (∀ T, Complete m.af T → (∀ a ∈ must, a < m.af.n → T a = true) →
         (∀ ν, m.enc.S m.af ν = T → ν m.sel = false → assumpsTrue ν extra = true) → ∃ E ∈ blocked, SubL T E) →
       Q none w') :
-    wp C (m.solve (inL m.enc m.af.n must ++ [nl m.sel] ++ extra)) w Q := by
-  unfold MEC.solve
-  simp only [Prog.bind_eq, h.no_add, List.append_nil]
-  rw [wp_bind]
-  have hdb : ∀ r, ((w.onSolve m.sid (inL m.enc m.af.n must ++ [nl m.sel] ++ extra)).onReply m.sid r).db m.sid = w.db m.sid := by
-    intro r; simp
-  constructor
-  · rintro mdl ⟨_, hΓ, hA⟩
-    obtain ⟨h1, h2, h3, h4⟩ := solve_sat h must extra hΓ hA
-    have hS := m.enc.ofList_decode m.af mdl
-    refine hsat mdl _ (h.congr_db (hdb _)) (hdb _) (by rw [hS]; exact h1) ?_ (by rw [hS]; exact h3) h4
-    intro a ha hn
-    exact (m.enc.decode_spec m.af mdl a).2 (h2 a ha hn)
-  · intro hun
-    refine hunsat _ (h.congr_db (hdb _)) (hdb _) ?_
-    intro T hT hmust hextra
-    exact solve_unsat h must extra hun hT hmust hextra
+    wp C (m.solve (inL m.enc m.af.n must ++ [nl m.sel] ++ extra)) w Q :=
+  wp_MEC_solveF h must extra Q hsat hunsat
 
 /-- what the solver proofs need from the grounded algorithm on a compact framework
 (proved in `GroundedAlg.lean`) -/
@@ -114,20 +149,38 @@ theorem blockAndAssume_pref {m : MEC} (hk : m.kind = .preferred) :
   rw [hk]
   simp only [splitInExt_eq]
 
-/-- the invariant of the growing phase: the current set is complete, every blocked set is below it -/
-structure GrowInv (m : MEC) (w : World) (blocked : List (List Nat)) : Prop where
-  minv : MInv m w blocked
+/-- the families of sets whose ⊆-maximal members are the preferred extensions and that contain the
+complete extensions: the complete extensions themselves and the admissible sets.  The growing
+search of `compute_maximal` is correct for an encoder of any such family. -/
+structure PrefFam (F : AF → ASet → Prop) : Prop where
+  sub : ∀ {af : AF} {T : ASet}, F af T → ∀ a, T a = true → a < af.n
+  of_co : ∀ {af : AF} {T : ASet}, Complete af T → F af T
+  max_pref : ∀ {af : AF} {S : ASet}, F af S → (∀ T, F af T → SubsetS S T → SubsetS T S) → Preferred af S
+
+theorem prefFam_complete : PrefFam Complete :=
+  ⟨fun h => h.1.1.1, fun h => h, fun h hmax => preferred_of_max_complete h hmax⟩
+
+theorem prefFam_admissible : PrefFam Admissible :=
+  ⟨fun h => h.1.1, fun h => h.1, fun h hmax => ⟨h, hmax⟩⟩
+
+/-- the invariant of the growing phase: the current set is in the family, every blocked set is below it -/
+structure GrowInvF (F : AF → ASet → Prop) (m : MEC) (w : World) (blocked : List (List Nat)) : Prop where
+  minv : MInvF F m w blocked
   kind : m.kind = .preferred
   st : m.state = .intermediate ∨ m.state = .maximal
   cur_lt : ∀ a ∈ m.cur, a < m.af.n
-  cur_co : Complete m.af (ofList m.cur)
+  cur_co : F m.af (ofList m.cur)
   below : ∀ B ∈ blocked, ∀ a ∈ B, a ∈ m.cur
-  max : m.state = .maximal → ∀ T, Complete m.af T → SubsetS (ofList m.cur) T → SubsetS T (ofList m.cur)
+  max : m.state = .maximal → ∀ T, F m.af T → SubsetS (ofList m.cur) T → SubsetS T (ofList m.cur)
+
+/-- the invariant of the growing phase: the current set is complete, every blocked set is below it -/
+abbrev GrowInv (m : MEC) (w : World) (blocked : List (List Nat)) : Prop := GrowInvF Complete m w blocked
 
 /-- one increase step of a growing computer -/
-theorem wp_increase {C : Prop} {m : MEC} {w : World} {blocked : List (List Nat)} (h : GrowInv m w blocked)
+theorem wp_increaseF {F : AF → ASet → Prop} (hF : PrefFam F) {C : Prop} {m : MEC} {w : World}
+    {blocked : List (List Nat)} (h : GrowInvF F m w blocked)
     (hst : m.state = .intermediate) :
-    wp C m.computeNext w (fun m' w' => ∃ blocked', GrowInv m' w' blocked' ∧ m'.af = m.af ∧ m'.enc = m.enc ∧
+    wp C m.computeNext w (fun m' w' => ∃ blocked', GrowInvF F m' w' blocked' ∧ m'.af = m.af ∧ m'.enc = m.enc ∧
       m'.sid = m.sid ∧ m'.sel = m.sel ∧ (∀ a ∈ m.cur, a ∈ m'.cur) ∧ w'.db m.sid ≠ [] ) := by
   unfold MEC.computeNext
   rw [hst]
@@ -136,11 +189,11 @@ theorem wp_increase {C : Prop} {m : MEC} {w : World} {blocked : List (List Nat)}
   have hM := h.minv.block m.cur
   have happ : inL m.enc m.af.n m.cur ++ [nl m.sel] = inL m.enc m.af.n m.cur ++ [nl m.sel] ++ [] := by simp
   rw [happ]
-  apply wp_MEC_solve hM m.cur []
+  apply wp_MEC_solveF hM m.cur []
   · intro mdl w' hM' hdb hco hmust hblk _
     refine ⟨m.cur :: blocked, ⟨hM'.congr_m rfl rfl rfl rfl rfl, h.kind, Or.inl rfl, ?_, hco, ?_, ?_⟩, rfl, rfl, rfl, rfl, ?_, ?_⟩
     · intro a ha
-      exact (hco.1.1.1) a ((ofList_mem _ a).2 ha)
+      exact hF.sub hco a ((ofList_mem _ a).2 ha)
     · intro B hB a ha
       rcases List.mem_cons.1 hB with rfl | hB
       · exact hmust a ha (h.cur_lt a ha)
@@ -163,10 +216,17 @@ theorem wp_increase {C : Prop} {m : MEC} {w : World} {blocked : List (List Nat)}
       · exact h.below E hE a (hTE a hTa)
     · rw [hdb, db_onClause_same]; simp
 
+theorem wp_increase {C : Prop} {m : MEC} {w : World} {blocked : List (List Nat)} (h : GrowInv m w blocked)
+    (hst : m.state = .intermediate) :
+    wp C m.computeNext w (fun m' w' => ∃ blocked', GrowInv m' w' blocked' ∧ m'.af = m.af ∧ m'.enc = m.enc ∧
+      m'.sid = m.sid ∧ m'.sel = m.sel ∧ (∀ a ∈ m.cur, a ∈ m'.cur) ∧ w'.db m.sid ≠ [] ) :=
+  wp_increaseF prefFam_complete h hst
+
 /-- **`compute_maximal`**: from a growing state the result is a preferred extension of the component
 that contains the current set -/
-theorem wp_computeMaximal : ∀ (fuel : Nat) (m : MEC) (w : World) (blocked : List (List Nat)),
-    GrowInv m w blocked →
+theorem wp_computeMaximalF {F : AF → ASet → Prop} (hF : PrefFam F) :
+    ∀ (fuel : Nat) (m : MEC) (w : World) (blocked : List (List Nat)),
+    GrowInvF F m w blocked →
     wp True (MEC.computeMaximal fuel m) w (fun e _ => Preferred m.af (ofList e) ∧ (∀ a ∈ m.cur, a ∈ e) ∧
       ∀ a ∈ e, a < m.af.n)
   | 0, _, _, _, _ => trivial
@@ -175,24 +235,36 @@ theorem wp_computeMaximal : ∀ (fuel : Nat) (m : MEC) (w : World) (blocked : Li
     by_cases hmax : m.state = .maximal
     · simp only [hmax, beq_self_eq_true, if_true, Prog.bind_eq]
       rw [wp_bind]
-      exact ⟨preferred_of_max_complete h.cur_co (h.max hmax), fun a ha => ha, h.cur_lt⟩
+      exact ⟨hF.max_pref h.cur_co (h.max hmax), fun a ha => ha, h.cur_lt⟩
     · have hst : m.state = .intermediate := h.st.resolve_right hmax
       have hne : (m.state == MState.maximal) = false := by rw [hst]; rfl
       simp only [hne, Bool.false_eq_true, if_false, Prog.bind_eq]
       rw [wp_bind]
-      refine wp_mono _ _ _ _ ?_ (wp_increase h hst)
+      refine wp_mono _ _ _ _ ?_ (wp_increaseF hF h hst)
       rintro m' w' ⟨blocked', hG, haf, _, _, _, hsub, _⟩
-      refine wp_mono _ _ _ _ ?_ (wp_computeMaximal fuel m' w' blocked' hG)
+      refine wp_mono _ _ _ _ ?_ (wp_computeMaximalF hF fuel m' w' blocked' hG)
       rintro e _ ⟨h1, h2, h3⟩
       rw [haf] at h1 h3
       exact ⟨h1, fun a ha => h2 a (hsub a ha), h3⟩
 
+theorem wp_computeMaximal : ∀ (fuel : Nat) (m : MEC) (w : World) (blocked : List (List Nat)),
+    GrowInv m w blocked →
+    wp True (MEC.computeMaximal fuel m) w (fun e _ => Preferred m.af (ofList e) ∧ (∀ a ∈ m.cur, a ∈ e) ∧
+      ∀ a ∈ e, a < m.af.n) :=
+  wp_computeMaximalF prefFam_complete
+
 /-- the first step of a fresh computer: the grounded extension -/
+theorem GrowInvF_init {F : AF → ASet → Prop} (hF : PrefFam F) {m : MEC} {w : World} (h : MInvF F m w [])
+    (hk : m.kind = .preferred) (hgr : GrOK m.af) :
+    GrowInvF F { m with cur := groundedV m.af.view, state := .intermediate } w [] :=
+  ⟨h.congr_m rfl rfl rfl rfl rfl, hk, Or.inl rfl, hgr.2.1, hF.of_co hgr.1, (fun B hB => by cases hB), (fun hh => by cases hh)⟩
+
 theorem GrowInv_init {m : MEC} {w : World} (h : MInv m w []) (hk : m.kind = .preferred) (hgr : GrOK m.af) :
     GrowInv { m with cur := groundedV m.af.view, state := .intermediate } w [] :=
-  ⟨h.congr_m rfl rfl rfl rfl rfl, hk, Or.inl rfl, hgr.2.1, hgr.1, (fun B hB => by cases hB), (fun hh => by cases hh)⟩
+  GrowInvF_init prefFam_complete h hk hgr
 
-theorem wp_computeMaximal_init (fuel : Nat) (m : MEC) (w : World) (h : MInv m w []) (hk : m.kind = .preferred)
+theorem wp_computeMaximal_initF {F : AF → ASet → Prop} (hF : PrefFam F) (fuel : Nat) (m : MEC) (w : World)
+    (h : MInvF F m w []) (hk : m.kind = .preferred)
     (hst : m.state = .init) (hgr : GrOK m.af) :
     wp True (MEC.computeMaximal fuel m) w (fun e _ => Preferred m.af (ofList e) ∧ ∀ a ∈ e, a < m.af.n) := by
   cases fuel with
@@ -205,12 +277,19 @@ theorem wp_computeMaximal_init (fuel : Nat) (m : MEC) (w : World) (h : MInv m w 
     unfold MEC.computeNext
     rw [hst]
     show wp True (MEC.computeMaximal fuel { m with cur := groundedV m.af.view, state := .intermediate }) w _
-    refine wp_mono _ _ _ _ ?_ (wp_computeMaximal fuel _ w [] (GrowInv_init h hk hgr))
+    refine wp_mono _ _ _ _ ?_ (wp_computeMaximalF hF fuel _ w [] (GrowInvF_init hF h hk hgr))
     rintro e _ ⟨h1, _, h3⟩
     exact ⟨h1, h3⟩
 
-/-- **SE-PR on one component**: a preferred extension of the component's framework -/
-theorem wp_prMaximalOfComp (cfg : Cfg) (hk : ∀ af T, cfg.enc.Base af T ↔ Complete af T) (c : Comp)
+theorem wp_computeMaximal_init (fuel : Nat) (m : MEC) (w : World) (h : MInv m w []) (hk : m.kind = .preferred)
+    (hst : m.state = .init) (hgr : GrOK m.af) :
+    wp True (MEC.computeMaximal fuel m) w (fun e _ => Preferred m.af (ofList e) ∧ ∀ a ∈ e, a < m.af.n) :=
+  wp_computeMaximal_initF prefFam_complete fuel m w h hk hst hgr
+
+/-- **SE-PR on one component**, for an encoder of a family whose maximal members are the preferred
+extensions: a preferred extension of the component's framework -/
+theorem wp_prMaximalOfCompF {F : AF → ASet → Prop} (hF : PrefFam F) (cfg : Cfg)
+    (hk : ∀ af T, cfg.enc.Base af T ↔ F af T) (c : Comp)
     (hwf : c.af.WF) (hgr : GrOK c.af) (w : World) (hb : w.Bounded) :
     wp True (prMaximalOfComp cfg c) w (fun res w' => w'.Bounded ∧
       ∃ e, res = c.back e ∧ Preferred c.af (ofList e) ∧ ∀ a ∈ e, a < c.af.n) := by
@@ -222,13 +301,20 @@ theorem wp_prMaximalOfComp (cfg : Cfg) (hk : ∀ af T, cfg.enc.Base af T ↔ Com
   apply wp_encodeInto _ _ _ _ _ (Bounded_onNew hb) hlen (db_onNew_self w)
   intro w1 henc _
   rw [wp_bind]
-  refine wp_mono _ _ _ _ ?_ (wp_MEC_new henc hwf (hk _) .preferred)
+  refine wp_mono _ _ _ _ ?_ (wp_MEC_newF henc hwf (hk _) .preferred)
   rintro m w2 ⟨hM, haf, _, _, hkind, hst, _, _⟩
   rw [wp_bind]
-  refine wp_mono _ _ _ _ ?_ (wp_computeMaximal_init cfg.fuel m w2 hM hkind hst (by rw [haf]; exact hgr))
+  refine wp_mono _ _ _ _ ?_ (wp_computeMaximal_initF hF cfg.fuel m w2 hM hkind hst (by rw [haf]; exact hgr))
   rintro e w3 ⟨h1, h2⟩
   rw [haf] at h1 h2
   exact ⟨e, rfl, h1, h2⟩
+
+/-- **SE-PR on one component**: a preferred extension of the component's framework -/
+theorem wp_prMaximalOfComp (cfg : Cfg) (hk : ∀ af T, cfg.enc.Base af T ↔ Complete af T) (c : Comp)
+    (hwf : c.af.WF) (hgr : GrOK c.af) (w : World) (hb : w.Bounded) :
+    wp True (prMaximalOfComp cfg c) w (fun res w' => w'.Bounded ∧
+      ∃ e, res = c.back e ∧ Preferred c.af (ofList e) ∧ ∀ a ∈ e, a < c.af.n) :=
+  wp_prMaximalOfCompF prefFam_complete cfg hk c hwf hgr w hb
 
 /-! ## skeptical acceptance (of a disjunction of arguments) by enumeration with discard -/
 
